@@ -457,7 +457,11 @@ func (c *cse) checkCache(u *user, after string) {
 	if u.candExp != nil {
 		if len(uE)+len(uM)+len(kE)+len(kM) > 0 {
 			ckE, ckM, cuE, cuM := classify(u.candExp, u.candPol, map[string]string{}, A)
-			if len(cuE)+len(cuM) == 0 && len(uE)+len(uM) > 0 {
+			// The candidate (the server's lists at that listing / push) is adopted when the cache equals it up to
+			// the recorded theirs-in-cache deviation and it explains the cache better than the old expectation
+			// does. It can never excuse a lock the server still holds: such a lock is in candExp, and the
+			// candidate has no "lost" attribution, so its absence is an unknown diff.
+			if len(cuE)+len(cuM) == 0 && (len(uE)+len(uM) > 0 || len(ckE)+len(ckM) < len(kE)+len(kM)) {
 				// the push refreshed the cache: admissible, adopt
 				u.exp, u.pol, u.lost = u.candExp, u.candPol, map[string]string{}
 				kE, kM, uE, uM = ckE, ckM, cuE, cuM
